@@ -280,6 +280,9 @@ func Units(p *Program, prop string) []*Unit {
 	if prop == "C03" {
 		us = append(us, FrameUnit(p, prop))
 	}
+	if prop == "C10" {
+		us = append(us, HandleUnit(p, prop))
+	}
 	return us
 }
 
